@@ -19,9 +19,11 @@ namespace Fastor {
 //----------------------------------------------------------------------------------------------------------//
 template<typename T, typename ABI>
 FASTOR_INLINE SIMDVector<T,ABI> min(const SIMDVector<T,ABI> &a, const SIMDVector<T,ABI> &b) {
-    SIMDVector<T,ABI> out;
-    for (FASTOR_INDEX i=0; i<SIMDVector<T,ABI>::Size; i++) { ((T*)&out)[i] = std::min(((T*)&a)[i],((T*)&b)[i]); }
-    return out;
+    // go through operator[] and a plain array: reading or writing the registers through T*
+    // violates strict aliasing and is miscompiled at -O2
+    T out[SIMDVector<T,ABI>::Size];
+    for (FASTOR_INDEX i=0; i<SIMDVector<T,ABI>::Size; i++) { out[i] = std::min(a[i],b[i]); }
+    return SIMDVector<T,ABI>(out,false);
 }
 template<typename T, typename ABI>
 FASTOR_INLINE SIMDVector<T,ABI> min(const SIMDVector<T,ABI> &a, T b) {
@@ -100,9 +102,11 @@ FASTOR_INLINE SIMDVector<double,simd_abi::avx512> min(const SIMDVector<double,si
 //----------------------------------------------------------------------------------------------------------//
 template<typename T, typename ABI>
 FASTOR_INLINE SIMDVector<T,ABI> max(const SIMDVector<T,ABI> &a, const SIMDVector<T,ABI> &b) {
-    SIMDVector<T,ABI> out;
-    for (FASTOR_INDEX i=0; i<SIMDVector<T,ABI>::Size; i++) { ((T*)&out)[i] = std::max(((T*)&a)[i],((T*)&b)[i]); }
-    return out;
+    // go through operator[] and a plain array: reading or writing the registers through T*
+    // violates strict aliasing and is miscompiled at -O2
+    T out[SIMDVector<T,ABI>::Size];
+    for (FASTOR_INDEX i=0; i<SIMDVector<T,ABI>::Size; i++) { out[i] = std::max(a[i],b[i]); }
+    return SIMDVector<T,ABI>(out,false);
 }
 template<typename T, typename ABI>
 FASTOR_INLINE SIMDVector<T,ABI> max(const SIMDVector<T,ABI> &a, T b) {
